@@ -85,13 +85,14 @@ Section C11.
     no_bad_state_files w' \/ exists rd', w' = set_rd w rd' /\ rdir_shrinks T teqb (w_rd w) rd'.
   Proof.
     intros Hs Hn.
-    destruct Hs as [w p a t w' _ _ Hb | w t p w' Hr | w p c | w p | w p x | w tbl _ | w hr0 r h
+    destruct Hs as [w p a t w' _ _ Hb | w t p w' Hr | w p c | w p | w p x | w p q | w tbl _ | w hr0 r h
                    | w w' tbl Hi | w | w rd' Hsh].
     - left. destruct (back_up_rd _ _ _ _ Hb) as [Ht Hh]. eapply no_bad_same_state_files; eauto.
     - left. destruct (restore_rd _ _ _ _ Hr) as [Ht Hh]. eapply no_bad_same_state_files; eauto.
     - left. eapply no_bad_same_state_files; [| |exact Hn]; rewrite InvProofs.write_file_rd; reflexivity.
     - left. exact Hn.
     - left. eapply no_bad_same_state_files; [| |exact Hn]; rewrite InvProofs.set_exec_rd; reflexivity.
+    - left. eapply no_bad_same_state_files; [| |exact Hn]; rewrite InvProofs.move_file_rd; reflexivity.
     - left. destruct Hn as [_ H2]. split; [cbn; discriminate | exact H2].
     - left. apply write_history_no_bad. exact Hn.
     - left. eapply init_dir_no_bad; eauto.
@@ -135,22 +136,35 @@ Section C11.
     - apply STick.
   Qed.
 
-  (* the converse: a step is ruler's, or it is the user's *)
+  (* the converse: a step is ruler's, or it is the user's: tampering with the ruler directory, or moving
+     a workspace file together with its modification time (mv, cp -p) -- neither ruler nor the modelled
+     commands do the latter *)
   Lemma step_cases w w' :
-    step w w' -> ruler_step w w' \/ exists rd', w' = set_rd w rd' /\ rdir_shrinks T teqb (w_rd w) rd'.
+    step w w' ->
+    ruler_step w w' \/ (exists rd', w' = set_rd w rd' /\ rdir_shrinks T teqb (w_rd w) rd') \/
+    (exists p q, w' = move_file w p q).
   Proof.
-    intros [w0 p a t w1 H1 H2 H3 | w0 t p w1 H | w0 p c | w0 p | w0 p x | w0 tbl H | w0 hr0 r h
+    intros [w0 p a t w1 H1 H2 H3 | w0 t p w1 H | w0 p c | w0 p | w0 p x | w0 p q | w0 tbl H | w0 hr0 r h
            | w0 w1 tbl H | w0 | w0 rd' H].
     - left. eapply RBackup; eauto.
     - left. eapply RRestore; eauto.
     - left. apply RWrite.
     - left. apply RRemove.
     - left. apply RChmod.
+    - right. right. exists p, q. reflexivity.
     - left. apply RWriteTable; exact H.
     - left. apply RWriteHist.
     - left. eapply RInitDir; eauto.
     - left. apply RTick.
-    - right. exists rd'. auto.
+    - right. left. exists rd'. auto.
+  Qed.
+
+  (* the user's mv is not one of ruler's steps: it can bring back an older (content, time) pair at a path,
+     which no ruler_step does; but like them it leaves the state files alone *)
+  Lemma move_keeps_state_files_good (w : world) p q :
+    no_bad_state_files w -> no_bad_state_files (move_file w p q).
+  Proof.
+    intro Hn. eapply no_bad_same_state_files; [| |exact Hn]; rewrite InvProofs.move_file_rd; reflexivity.
   Qed.
 
   Lemma rsteps_steps w w' : rsteps w w' -> steps w w'.
@@ -648,13 +662,14 @@ Section Results.
     no_bad_state_files T teqb w' \/ exists rd', w' = set_rd w rd' /\ rdir_shrinks T teqb (w_rd w) rd'.
   Proof. exact (C11Proofs.step_keeps_state_files_good_main T teqb hc teqb_spec). Qed.
 
-  (* ruler_step = the constructors of step except SUserRd *)
+  (* ruler_step = the constructors of step except the user's SUserRd and SMove *)
   Theorem ruler_step_step : forall w w', ruler_step T teqb hc w w' -> step teqb hc w w'.
   Proof. exact (C11Proofs.ruler_step_step T teqb hc). Qed.
 
   Theorem step_cases : forall w w',
     step teqb hc w w' ->
-    ruler_step T teqb hc w w' \/ exists rd', w' = set_rd w rd' /\ rdir_shrinks T teqb (w_rd w) rd'.
+    ruler_step T teqb hc w w' \/ (exists rd', w' = set_rd w rd' /\ rdir_shrinks T teqb (w_rd w) rd') \/
+    (exists p q, w' = move_file w p q).
   Proof. exact (C11Proofs.step_cases T teqb hc). Qed.
 
   Theorem ruler_step_keeps_state_files_good : forall w w',
